@@ -1392,7 +1392,11 @@ def gen_wait_program(rng):
     def lit(n=None):
         return bytes(r.choice(AB) for _ in range(n or r.randint(2, 4)))
     def wpat():
-        k = r.choice(["lit", "lit", "casei", "re", "re", "re", "concat", "inv-led"])
+        k = r.choice(["lit", "lit", "casei", "re", "re", "re", "concat", "inv-led", "cls-led", "cls-led"])
+        if k == "cls-led":
+            # a class first, then symbols of that class: the byte that breaks a partial match can begin the pattern again
+            cs = sorted(set(r.choice(AB) for _ in range(r.randint(2, 3))))
+            return ("re", ("seq", [("set", [(c, c) for c in cs], False)] + [("c", r.choice(cs)) for _ in range(r.randint(1, 2))]))
         if k == "inv-led":
             # begins with a repeated inverted class / wildcard whose excluded symbol is matched next: the start state rejects only End
             c = r.choice(AB)
